@@ -149,7 +149,14 @@ EXPR_TEMPLATES = [
 	'f(k=a {0} b, *c, **d)[a {1} b].e',
 	'[a {0} b, (c, d {1} e), {{"k": a {0} b}}]',
 	'x[a {0} b:c {1} d] = y',
+	'lambda: a {0} b {1} c',
+	'f(lambda: a {0} b, lambda x, y: x {1} y)',
 ]
+# atoms whose spelling is close to a keyword / another terminal class (every one is a NAME, NUMBER or STRING for CPython)
+ATOMS = ['a', '_a1', '0', '10', '0.5', '1.25', '10.0', '"s"', "'s'", 'True', 'False', 'None', 'Falsey', 'Truex', 'Nonex', 'nota', 'inx', 'isx', 'orx', 'andy', 'ifx', 'elsex', 'lambdax', 'returnx', 'xin', 'xor']
+ATOM_TEMPLATES = ['x = {0} + {1}', 'f({0}, k={1})', '{0} if {1} else {0}', '[{0}, {1}]', 'x = {0} < {1}', 'return {0}']
+# operator spellings the shipped grammar does not have: these sentences are outside the grammar and must be rejected
+NON_OPS = ['<<', '>>', '**', '//', '&', '|', '^', '<>', '=>', '=<', '!', '~', '===', '<==', '->', ':', '?', '@']
 STMT_TEMPLATES = [
 	'if a {0} b:\n  {2}\nelif c {1} d:\n  {3}\nelse:\n  {2}\n',
 	'if a {0} b:\n  if c {1} d:\n    {2}\n  {3}\n{2}\n',
@@ -185,6 +192,51 @@ def check_template(o1: int, o2: int, s1: int, s2: int) -> bool:
 	return canon.canon_tranp(tree.simplify()) == want
 
 
+def check_atoms(t: int, a: int, b: int) -> bool:
+	source = ATOM_TEMPLATES[t].format(ATOMS[a], ATOMS[b])
+	try:
+		tree = SyntaxParser(_RULES).parse(source, 'entry')
+	except Errors.Syntax:
+		return False
+	cover('compared')
+	return canon.canon_tranp(tree.simplify()) == canon.canon_python(source)
+
+
+def atoms_law(t: int, a: int, b: int) -> bool:
+	"""
+	pre: 0 <= t < len(ATOM_TEMPLATES) and 0 <= a < len(ATOMS) and 0 <= b < len(ATOMS)
+	pre: TEMPLATE < 0 or t == TEMPLATE
+	post: _
+	"""
+	return ok(natively(check_atoms, decode(t, len(ATOM_TEMPLATES)), decode(a, len(ATOMS)), decode(b, len(ATOMS))))
+
+
+def explain_atoms(t: int, a: int, b: int) -> str:
+	return explain_buffer(ATOM_TEMPLATES[t].format(ATOMS[a], ATOMS[b]))
+
+
+def check_reject(o: int, shape: int) -> bool:
+	source = ['a {0} b', 'x = a {0} b + c', 'f(a {0} b)', 'if a {0} b:\n  c\n'][shape].format(NON_OPS[o])
+	try:
+		SyntaxParser(_RULES).parse(source, 'entry')
+	except Errors.Syntax as e:
+		cover('rejected')
+		return summary_ok(str(e.args[0]), source, [t.string for t in Tokenizer().parse(source)])
+	return False  # accepted although no derivation exists
+
+
+def reject_law(o: int, shape: int) -> bool:
+	"""
+	pre: 0 <= o < len(NON_OPS) and 0 <= shape < 4
+	post: _
+	"""
+	return ok(natively(check_reject, decode(o, len(NON_OPS)), decode(shape, 4)))
+
+
+def explain_reject(o: int, shape: int) -> str:
+	return explain_buffer(['a {0} b', 'x = a {0} b + c', 'f(a {0} b)', 'if a {0} b:\n  c\n'][shape].format(NON_OPS[o])) + ' (must be rejected with Errors.Syntax)'
+
+
 def template_law(o1: int, o2: int, s1: int, s2: int) -> bool:
 	"""
 	pre: 0 <= o1 < len(BINOPS) and 0 <= o2 < (1 if STMT else len(BINOPS))
@@ -199,4 +251,4 @@ def explain_template(o1: int, o2: int, s1: int, s2: int) -> str:
 
 
 CLASSIFIERS: dict = {}
-EXPLAIN = {'buffer_law': explain_buffer, 'template_law': explain_template}
+EXPLAIN = {'buffer_law': explain_buffer, 'template_law': explain_template, 'atoms_law': explain_atoms, 'reject_law': explain_reject}
